@@ -382,6 +382,7 @@ func C04(ctx *core.Ctx) {
 	c04StreamAndLoop(ctx, r, enc)
 	c04ReaderOnlyRead(ctx, r)
 	c04ResponseHeadersReachContext(ctx, r)
+	c04DecoderPurity(ctx, r)
 
 	// ---- S5 ---------------------------------------------------------------------------
 	py := filepath.Join(ctx.RepoDir, "lib/python/frugal/util/headers.py")
